@@ -4,7 +4,7 @@ import random
 
 from harness import lib_graph as G
 
-PROFILES = ["mixed", "o2m", "tree", "m2m", "cycle", "inherit"]
+PROFILES = ["mixed", "o2m", "tree", "m2m", "cycle", "inherit", "oneway", "oneway"]
 
 
 def first_failure(res):
